@@ -18,7 +18,7 @@ Section Race.
   Definition deletes (y : tstep) : bool :=
     match y, t with
     | TDelProc q, TPid q' => if pid_dec q q' then true else false
-    | TDelName n, TName n' _ => n =? n'
+    | TDelName n _, TName n' _ => n =? n'
     | TDelAlias a, TAlias _ a' => a =? a'
     | TDelEvent e, TEvent e' _ => e =? e'
     | _, _ => false
@@ -61,7 +61,7 @@ Section Race.
      else has s' = has s /\ nn s' = nn s) /\
     (deletes y = false -> exists_target t s' = exists_target t s).
   Proof.
-    intros OK L P Q D. destruct y as [q|t' r'|q|n|a|e]; cbn [tstep_exec is_drain].
+    intros OK L P Q D. destruct y as [q|t' r'|q|n pn|a|e]; cbn [tstep_exec is_drain].
     - (* TDelProc *) specialize (P q eq_refl). split; [|split; [split; reflexivity|]].
       + unfold live, ahas in *. cbn. rewrite aget_adel_neq by congruence. exact L.
       + intros Dl. unfold deletes in Dl. destruct t as [q'| | | |] eqn:Et; try reflexivity.
@@ -92,7 +92,7 @@ Section Race.
       + apply memb_false. apply memb_false in M. intros H. apply R in H. tauto.
     - (* TDelName *) split; [exact L|]. split; [split; reflexivity|]. intros Dl. unfold deletes in Dl.
       destruct t as [|n' nd| | |] eqn:Et; try reflexivity. cbn [exists_target]. unfold ahas. cbn.
-      apply N.eqb_neq in Dl. rewrite aget_adel_neq by congruence. reflexivity.
+      apply N.eqb_neq in Dl. rewrite aget_cdel_neq by congruence. reflexivity.
     - (* TDelAlias *) split; [exact L|]. split; [split; reflexivity|]. intros Dl. unfold deletes in Dl.
       destruct t as [| |nd a'| |] eqn:Et; try reflexivity. cbn [exists_target]. unfold ahas. cbn.
       apply N.eqb_neq in Dl. rewrite aget_adel_neq by congruence. reflexivity.
@@ -214,6 +214,10 @@ Proof.
   destruct (deletes k y); [|reflexivity]. rewrite existsb_app, A. reflexivity.
 Qed.
 
+Lemma covered_cons k y l :
+  (deletes k y = true -> existsb (is_drain k) l = true) -> covered k l = true -> covered k (y :: l) = true.
+Proof. intros H C. cbn [covered]. rewrite C. destruct (deletes k y); [rewrite H; reflexivity | reflexivity]. Qed.
+
 Lemma covered_pair k y t' r' : (deletes k y = true -> t' = kt k) -> covered k [y; TDrain t' r'] = true.
 Proof.
   intros H. cbn [covered existsb]. replace (deletes k (TDrain t' r')) with false by reflexivity.
@@ -221,39 +225,42 @@ Proof.
   destruct (target_dec (kt k) (kt k)); [reflexivity | congruence].
 Qed.
 
+Lemma is_drain_self k r' : is_drain k (TDrain (kt k) r') = true.
+Proof. unfold is_drain. destruct (target_dec (kt k) (kt k)); [reflexivity | congruence]. Qed.
+
 Lemma term_prog_ok k r p pr :
   target_node (kt k) = me -> kc k <> p -> prog_ok k r (term_prog_of p pr r).
 Proof.
-  intros TN NE. unfold prog_ok, term_prog_of. split; [|split; [|split]].
-  - change (TDelProc p :: TDrain (TPid p) r :: TCleanCons p :: ?l) with ([TDelProc p; TDrain (TPid p) r] ++ [TCleanCons p] ++ l).
-    repeat apply covered_app.
-    + apply covered_pair. unfold deletes. destruct (kt k) as [q| | | |]; try discriminate.
-      destruct (pid_dec p q) as [->|]; [reflexivity | discriminate].
-    + reflexivity.
-    + destruct (pr_name pr) as [n|]; [|reflexivity]. apply covered_pair. unfold deletes.
-      destruct (kt k) as [|n' nd| | |]; try discriminate. cbn in TN. subst nd.
-      intros E. apply N.eqb_eq in E. subst. reflexivity.
-    + induction (pr_aliases pr) as [|a l IH]; [reflexivity|]. cbn [flat_map]. apply covered_app; [|exact IH].
-      apply covered_pair. unfold deletes. destruct (kt k) as [| |nd a'| |]; try discriminate. cbn in TN. subst nd.
-      intros E. apply N.eqb_eq in E. subst. reflexivity.
-    + induction (pr_events pr) as [|e l IH]; [reflexivity|]. cbn [flat_map]. apply covered_app; [|exact IH].
-      apply covered_pair. unfold deletes. destruct (kt k) as [| | |e' nd|]; try discriminate. cbn in TN. subst nd.
-      intros E. apply N.eqb_eq in E. subst. reflexivity.
-  - intros t' r' HI _. cbn [In] in HI. repeat (destruct HI as [HI|HI]; [inversion HI; reflexivity|]); try discriminate.
-    apply in_app_or in HI. destruct HI as [HI|HI].
-    { destruct (pr_name pr); [|destruct HI]. cbn in HI. destruct HI as [HI|[HI|[]]]; inversion HI; reflexivity. }
-    apply in_app_or in HI. destruct HI as [HI|HI]; apply in_flat_map in HI; destruct HI as (z & _ & HI);
-      cbn in HI; destruct HI as [HI|[HI|[]]]; inversion HI; reflexivity.
-  - intros q HI. cbn [In] in HI. destruct HI as [HI|[HI|[HI|HI]]]; try discriminate; [inversion HI; subst; auto|].
-    exfalso. apply in_app_or in HI. destruct HI as [HI|HI].
-    { destruct (pr_name pr); [|destruct HI]. cbn in HI. destruct HI as [HI|[HI|[]]]; discriminate. }
-    apply in_app_or in HI. destruct HI as [HI|HI]; apply in_flat_map in HI; destruct HI as (z & _ & HI);
-      cbn in HI; destruct HI as [HI|[HI|[]]]; discriminate.
-  - intros q HI. cbn [In] in HI. destruct HI as [HI|[HI|[HI|HI]]]; try discriminate; [inversion HI; subst; auto|].
-    exfalso. apply in_app_or in HI. destruct HI as [HI|HI].
-    { destruct (pr_name pr); [|destruct HI]. cbn in HI. destruct HI as [HI|[HI|[]]]; discriminate. }
-    apply in_app_or in HI. destruct HI as [HI|HI]; apply in_flat_map in HI; destruct HI as (z & _ & HI);
-      cbn in HI; destruct HI as [HI|[HI|[]]]; discriminate.
+  intros TN NE. unfold prog_ok. split; [|split; [|split]].
+  - unfold term_prog_of.
+    assert (T : covered k (flat_map (fun a => [TDelAlias a; TDrain (TAlias me a) r]) (pr_aliases pr) ++
+                           flat_map (fun e => [TDelEvent e; TDrain (TEvent e me) r]) (pr_events pr)) = true).
+    { apply covered_app.
+      - induction (pr_aliases pr) as [|a l IH]; [reflexivity|]. cbn [flat_map]. apply covered_app; [|exact IH].
+        apply covered_pair. unfold deletes. destruct (kt k) as [| |nd a'| |]; try discriminate. cbn in TN. subst nd.
+        intros E. apply N.eqb_eq in E. subst. reflexivity.
+      - induction (pr_events pr) as [|e l IH]; [reflexivity|]. cbn [flat_map]. apply covered_app; [|exact IH].
+        apply covered_pair. unfold deletes. destruct (kt k) as [| | |e' nd|]; try discriminate. cbn in TN. subst nd.
+        intros E. apply N.eqb_eq in E. subst. reflexivity. }
+    apply covered_cons.
+    { (* TDelProc p is followed by the drain of TPid p *)
+      intros D. unfold deletes in D. destruct (kt k) as [q| | | |] eqn:Ek; try discriminate.
+      destruct (pid_dec p q) as [->|]; [|discriminate]. rewrite existsb_app. apply orb_true_iff. right.
+      cbn [existsb]. rewrite <- Ek. rewrite is_drain_self. reflexivity. }
+    destruct (pr_name pr) as [n|]; cbn [app].
+    + apply covered_cons.
+      { intros D. unfold deletes in D. destruct (kt k) as [|n' nd| | |] eqn:Ek; try discriminate. cbn in TN. subst nd.
+        apply N.eqb_eq in D. subst n'. cbn [existsb]. rewrite <- Ek. rewrite is_drain_self.
+        rewrite !orb_true_r. reflexivity. }
+      apply covered_cons; [intros D; discriminate|]. apply covered_cons; [intros D; discriminate|].
+      apply covered_cons; [intros D; discriminate|]. exact T.
+    + apply covered_cons; [intros D; discriminate|]. apply covered_cons; [intros D; discriminate|]. exact T.
+  - intros t' r' HI _. apply term_prog_inv in HI.
+    destruct HI as [H|[H|[H|[(n & _ & [H|H])|[(a & _ & [H|H])|(e & _ & [H|H])]]]]]; try discriminate; inversion H; reflexivity.
+  - intros q HI. apply term_prog_inv in HI.
+    destruct HI as [H|[H|[H|[(n & _ & [H|H])|[(a & _ & [H|H])|(e & _ & [H|H])]]]]]; try discriminate. inversion H; subst; auto.
+  - intros q HI. apply term_prog_inv in HI.
+    destruct HI as [H|[H|[H|[(n & _ & [H|H])|[(a & _ & [H|H])|(e & _ & [H|H])]]]]]; try discriminate. inversion H; subst; auto.
 Qed.
 
 (** The theorem for the real program: one link/monitor request on a local target by a live process
